@@ -17,6 +17,7 @@ import sys
 
 sys.path.insert(0, os.path.dirname(os.path.abspath(__file__)))
 import harness  # noqa: E402
+import translate  # noqa: E402
 from vlib import cz, clist, cnat  # noqa: E402
 
 LEVEL = "proof"
@@ -24,7 +25,7 @@ LEVEL = "proof"
 HEADER = r"""
 From Coq Require Import List ZArith Bool.
 Import ListNotations.
-Require Import V.C36.Model.
+Require Import V.C36.Model V.gen.C36Order.
 Open Scope Z_scope.
 Definition zb (b : bool) : Z := if b then 1 else 0.
 Definition eb (b : bytes) : list Z := Z.of_nat (length b) :: b.
@@ -51,6 +52,13 @@ Definition obs_r (cs : list (Z * rconn)) : list Z :=
   flat_map (fun kc => fst kc :: elb (rpk (snd kc)) ++ eb (rbuf (snd kc)) ++ [zb (rcut (snd kc))]) cs.
 Fixpoint trace_r (cs : list (Z * rconn)) (ops : list rop) : list Z :=
   match ops with [] => [] | o :: ops' => let cs' := r_step cs o in obs_r cs' ++ trace_r cs' ops' end.
+(* composite serviceAll, order generated from the source *)
+Definition obs_p (cs : list (Z * pconn)) : list Z :=
+  flat_map (fun kc => let c := snd kc in
+     fst kc :: zb (palive c) :: (if palive c then eb (pbuf c) ++ [zb (pcut c)] else [0; 1]) ++ elb (pdel c)) cs.
+Fixpoint trace_p (cs : list (Z * pconn)) (passes : list (list (Z * list rres))) : list Z :=
+  match passes with [] => [] | o :: os => let cs' := p_pass server_all_order cs o in obs_p cs' ++ trace_p cs' os end.
+(* client serviceAll: rxPkts are consumed by serviceRxPkts, deliveries = cumulative rxpk *)
 Fixpoint l_eqb (a b : list Z) : bool :=
   match a, b with [] , [] => true | x :: a', y :: b' => Z.eqb x y && l_eqb a' b' | _, _ => false end.
 """
@@ -211,7 +219,50 @@ def rnd_rorc(rng, pclose=0.05):
     return out
 
 
+def gen(ctx):
+    """regenerate coq/gen/C36Order.v (step order inside TcpServerStack.serviceAll) from the source"""
+    src = os.path.join(ctx.repo, "ioflo", "aio", "proto", "stacking.py")
+    bad = translate.selftest()
+    if bad:
+        ctx.tie_broken("translator", "translator self-test", "; ".join(bad))
+        return None
+    try:
+        text, steps = translate.translate(open(src).read())
+    except (translate.Unsupported, SyntaxError) as ex:
+        ctx.tie_broken("translator", "stacking.py serviceAll is outside the translated fragment", repr(ex))
+        return None
+    ctx.write_gen("C36Order.v", text)
+    ctx.extra["server_all_order"] = steps
+    return steps
+
+
+def flat_server_all(obs):
+    out = []
+    for row in obs:
+        if isinstance(row, tuple) and row and isinstance(row[0], str):
+            return out + [-99]
+        for ca, alive, rxbs, cutf, dl in row:
+            out += [ca, int(alive)] + (eb(rxbs) + [int(cutf)] if alive else [0, 1]) + elb(dl)
+    return out
+
+
+def prop_server_all(obs, got):
+    """every byte the socket handed out on a connection has been delivered in a packet of that
+    connection at the end of the pass in which it was read (hence before any drop)"""
+    if not obs:
+        return None
+    last = obs[-1]
+    if isinstance(last, tuple) and last and isinstance(last[0], str):
+        return "internal error %s" % last[0]
+    for ca, alive, rxbs, cutf, dl in last:
+        if b"".join(dl) != got[ca]:
+            return "peer %d: %d bytes were read from its socket, %d delivered%s" % (
+                ca, len(got[ca]), len(b"".join(dl)), "" if alive else " and the connection is dropped")
+    return None
+
+
 def run(ctx):
+    steps = gen(ctx)
     ctx.rule = ("histories of enqueue / service ops with per-call send and recv oracles (partial sends, EAGAIN, "
                 "reset, close) on the real TcpClientStack and TcpServerStack over socket doubles vs the Coq model; "
                 "small-scope exhaustive + seeded random; non-trivial = a partial send / multi-chunk receive occurs")
@@ -322,6 +373,47 @@ def run(ctx):
                 ops.append(('rxs',))
         add_srx(cas, ops + [('rxs',)], "server-rx-rnd")
 
+    # ---------------- composite serviceAll (server): send-then-close within one pass ----------------
+    def add_sall(cas, passes, kind):
+        obs, got = harness.run_server_all(cas, passes)
+        dclose = any(any(r[0] == 'D' for r in o) and any(r[0] == 'X' for r in o) for ps in passes for o in ps.values())
+        ctx.case({"side": "server-all", "cas": cas,
+                  "passes": [{k: [list(r[1]) if r[0] == 'D' else r[0] for r in v] for k, v in ps.items()} for ps in passes]},
+                 nontrivial=dclose, kind=kind)
+        cps = clist([clist(["(%s, %s)" % (cz(k), c_rorc(v)) for k, v in ps.items()], "(Z * list rres)") for ps in passes],
+                    "(list (Z * list rres))")
+        cases.append(("(trace_p (p_init %s) %s)" % (clist([cz(c) for c in cas], "Z"), cps),
+                      clist([cz(x) for x in flat_server_all(obs)], "Z")))
+        metas.append(("server-all", (cas, passes), (obs, got), None))
+
+    if steps is not None:
+        aalpha = [('D', b"a"), ('D', b"bc"), ('N',), ('X',)]
+        for n in range(0, ctx.n(3, 4) + 1):
+            for o in itertools.product(aalpha, repeat=n):
+                add_sall([5001, 5002], [{5001: list(o), 5002: [('D', b"q")]}, {5001: [('D', b"z")], 5002: [('D', b"r"), ('X',)]}, {}],
+                         "server-all-exh")
+        for _ in range(ctx.n(300, 3000)):
+            cas = [5001, 5002, 5003][:rng.randint(1, 3)]
+            passes = [{ca: [('D', bytes(rng.randint(32, 126) for _ in range(rng.randint(1, 4)))) if r[0] == 'D' else r
+                            for r in rnd_rorc(rng, pclose=0.2)] for ca in cas if rng.random() < 0.8}
+                      for _ in range(rng.randint(1, 6))]
+            add_sall(cas, passes, "server-all-rnd")
+
+    # ---------------- composite serviceAll (client) ----------------
+    def add_call(passes, kind):
+        obs, got = harness.run_client_all(passes)
+        ctx.case({"side": "client-all", "passes": [[list(r[1]) if r[0] == 'D' else r[0] for r in o] for o in passes]},
+                 nontrivial=any(any(r[0] == 'D' for r in o) and any(r[0] == 'X' for r in o) for o in passes), kind=kind)
+        cases.append(("(trace_crx crx_init %s)" % clist([c_rorc(o) for o in passes], "(list rres)"),
+                      clist([cz(x) for x in flat_client_rx([('r',) + tuple(o) if not (o and isinstance(o[0], str)) else o for o in obs])], "Z")))
+        metas.append(("client-all", passes, (obs, got), None))
+
+    for n in range(0, ctx.n(3, 4) + 1):
+        for o in itertools.product(ralpha, repeat=n):
+            add_call([list(o), [('D', b"z")]], "client-all-exh")
+    for _ in range(ctx.n(150, 1500)):
+        add_call([rnd_rorc(rng, pclose=0.15) for _ in range(rng.randint(1, 5))], "client-all-rnd")
+
     bad = ctx.coq_cases(HEADER, "l_eqb", cases, name="c36")
     for i in bad[:6]:
         side, inp, obs, _ = metas[i]
@@ -352,6 +444,16 @@ def run(ctx):
             elif side == "server-tx":
                 why = prop_server_tx(inp[0], inp[1], obs)
                 key, thm = "server-tx", "C36.Props.server_tx_per_peer"
+            elif side == "server-all":
+                why = prop_server_all(obs[0], obs[1])
+                key, thm = "server-all", "C36.Props.server_pass_delivers_before_drop / server_serviceAll_order_is_safe"
+            elif side == "client-all":
+                o_, got = obs
+                if o_ and isinstance(o_[-1][0], str):
+                    why = "internal error %s" % o_[-1][0]
+                elif o_:
+                    why = prop_rx(got, o_[-1][0], o_[-1][1])
+                key, thm = "client-all", "C36.Props.client_rx_partition"
             elif side == "client-rx":
                 if obs and obs[-1][0].startswith("EXC"):
                     why = "internal error %s" % obs[-1][0]
